@@ -206,6 +206,13 @@ def gen_cases(tier, seed):
         pats = bases.type_patterns(nsh)
         tp = list(pats[i % len(pats)])
         shells, classes = bases.rand_basis(rng, ls, types=tp, emin=0.1, emax_fn=lambda l: 10.0, Kmax=2, Mmax=2, scale=0.9)
+        if i % 4 == 1:
+            # general contraction of s functions with exact zeros (cc-pVXZ layout) next to shells with l > 0: the all-s
+            # quartets and the mixed quartets must describe the same s functions
+            shells[0] = dict(shells[0], l=0, e=[7.5, 1.1, 0.25], k=[[0.4, 0.0], [0.7, -0.3], [0.0, 1.0]])
+            if nsh >= 3:
+                shells[1] = dict(shells[1], l=0, e=[3.0, 0.4], k=[[1.0, 0.0], [0.2, 1.0]])
+            classes = classes + ["coef:zeros-s"]
         cases.append({"kind": "whole", "shells": shells, "classes": classes + ["whole:nsh%d" % nsh, "types:" + "".join(tp)],
                       "cost": sum(bases.nfunc(s) for s in shells) ** 4 / 40})
     return cases
